@@ -18,7 +18,12 @@ ASSUME = [
     "',' is excluded (delimiter of the cache library)",
     "collision freedom under use in transactions is additionally exercised by the other engines through the adversarial gamma variants (g1: eth1/eth10, g2: x_y/x, g3: a/b, p:q, q=r)",
 ]
-WITNESS = {}
+def w_outer_space(clause, e):
+    """a key value with leading / trailing white space: ParsePath trims it"""
+    return clause == "RoundTripXPath" and any(kv[1] != kv[1].strip() for el in e["p"] for kv in el["keys"])
+
+
+WITNESS = {"key_value_outer_space": w_outer_space}
 
 
 def universe(tier):
